@@ -29,7 +29,7 @@ func init() {
 
 func genC15(ctx *fw.Ctx) []fw.Case {
 	var cases []fw.Case
-	for _, s := range inputSources(ctx, 60, 1000) {
+	for _, s := range inputSources(ctx, 60, 4000) {
 		s := s
 		cases = append(cases, fw.Case{ID: s.ID, Run: func(r *fw.Rec) { c15Source(r, s) }})
 	}
